@@ -987,10 +987,10 @@ impl CancellationToken {
     }
 
     fn cancel(&self) {
+        self.cancelled.store(true, Ordering::Relaxed);
+
         #[cfg(weechess_verif)]
         weechess_simrt::probe::cancel_signalled(self.id);
-
-        self.cancelled.store(true, Ordering::Relaxed);
     }
 
     fn is_cancelled(&self) -> bool {
